@@ -88,11 +88,11 @@ type Func struct {
 }
 
 type GuardSpec struct {
-	Struct string `json:"struct"` // "iscp.Upstream" (package path relative to module + type name)
-	Field  string `json:"field"`
-	Guard  string `json:"guard"` // sibling field naming the mutex ("mu", "RWMutex", ...)
-	RW     bool   `json:"rw"`    // guard is an RWMutex: reads may hold it in read mode
-	Note   string `json:"note,omitempty"`
+	Struct string   `json:"struct"` // "iscp.Upstream" (package path relative to module + type name)
+	Field  string   `json:"field"`
+	Guard  string   `json:"guard"` // sibling field naming the mutex ("mu", "RWMutex", ...)
+	RW     bool     `json:"rw"`    // guard is an RWMutex: reads may hold it in read mode
+	Note   string   `json:"note,omitempty"`
 	Status string   `json:"status"`          // enforced | suspected (a genuine unsynchronised access is argued in Note)
 	Known  []string `json:"known,omitempty"` // suspected: the functions that contain the unsynchronised accesses
 }
@@ -457,6 +457,137 @@ func (p *Prog) build(fn *Func) {
 	if len(fn.EntryHeld) > 0 {
 		fn.MentionsLock = true
 	}
+	fb.condWakers()
+}
+
+// condWakers attaches waker evidence to the cond.Wait events of this function: for every
+// cancellation waker found in its body (nested literals included) that Broadcasts / Signals the
+// same condition variable -
+//
+//	context.AfterFunc(ctx, f)            f a literal, a local bound to a literal, or a method value
+//	go func() { <-ctx.Done(); ... }()    containing the Broadcast
+//
+// - one entry "waker-locked" when the Broadcast runs between Lock and Unlock of some mutex inside
+// the waker, and "waker-bare" when it does not (in particular the bare method value
+// cond.Broadcast).  A bare Broadcast that fires between the waiter's predicate check and its
+// Wait() wakes nobody: the lost wake-up.  The Coq side (cond_wakers_ok) rejects every bare waker
+// and demands the locked ones for the protocols whose bound rests on them.
+func (fb *fnBuilder) condWakers() {
+	type site struct{ node, idx int }
+	waits := map[string][]site{}
+	for i := range fb.fn.Nodes {
+		for j, e := range fb.fn.Nodes[i].Events {
+			if e.Kind == "Block" && e.BKind == "cond-wait" {
+				waits[e.Chan] = append(waits[e.Chan], site{i, j})
+			}
+		}
+	}
+	if len(waits) == 0 || fb.fn.Body == nil {
+		return
+	}
+	info := fb.info
+	isCondNotify := func(c *ast.CallExpr) (cond string, ok bool) {
+		sel, ok2 := unparen(c.Fun).(*ast.SelectorExpr)
+		if !ok2 || (sel.Sel.Name != "Broadcast" && sel.Sel.Name != "Signal") {
+			return "", false
+		}
+		if f, ok3 := info.Uses[sel.Sel].(*types.Func); !ok3 || f.Pkg() == nil || f.Pkg().Path() != "sync" {
+			return "", false
+		}
+		return fb.renderLoose(sel.X), true
+	}
+	// classify a waker body: which conds it notifies, and whether a Lock precedes the notify
+	classify := func(body *ast.BlockStmt) map[string]string {
+		res := map[string]string{}
+		locked := false
+		ast.Inspect(body, func(n ast.Node) bool {
+			c, ok := n.(*ast.CallExpr)
+			if !ok {
+				return true
+			}
+			if sel, ok := unparen(c.Fun).(*ast.SelectorExpr); ok && (sel.Sel.Name == "Lock" || sel.Sel.Name == "RLock") {
+				locked = true
+			}
+			if cond, ok := isCondNotify(c); ok {
+				if locked {
+					res[cond] = "waker-locked"
+				} else if res[cond] == "" {
+					res[cond] = "waker-bare"
+				}
+			}
+			return true
+		})
+		return res
+	}
+	// local identifiers bound to function literals
+	lits := map[types.Object]*ast.FuncLit{}
+	ast.Inspect(fb.fn.Body, func(n ast.Node) bool {
+		if as, ok := n.(*ast.AssignStmt); ok && len(as.Lhs) == len(as.Rhs) {
+			for i, l := range as.Lhs {
+				if id, ok := l.(*ast.Ident); ok {
+					if fl, ok := unparen(as.Rhs[i]).(*ast.FuncLit); ok {
+						if o := info.ObjectOf(id); o != nil {
+							lits[o] = fl
+						}
+					}
+				}
+			}
+		}
+		return true
+	})
+	add := func(cond, ev string) {
+		for _, st := range waits[cond] {
+			e := &fb.fn.Nodes[st.node].Events[st.idx]
+			e.Evid = append(e.Evid, ev)
+		}
+	}
+	ast.Inspect(fb.fn.Body, func(n ast.Node) bool {
+		switch x := n.(type) {
+		case *ast.CallExpr:
+			if isPkgFunc(info, x, "context", "AfterFunc") && len(x.Args) == 2 {
+				switch f := unparen(x.Args[1]).(type) {
+				case *ast.FuncLit:
+					for c, ev := range classify(f.Body) {
+						add(c, ev)
+					}
+				case *ast.Ident:
+					if fl := lits[info.ObjectOf(f)]; fl != nil {
+						for c, ev := range classify(fl.Body) {
+							add(c, ev)
+						}
+					}
+				case *ast.SelectorExpr:
+					// method value cond.Broadcast / cond.Signal
+					if (f.Sel.Name == "Broadcast" || f.Sel.Name == "Signal") && info.Uses[f.Sel] != nil {
+						if fn, ok := info.Uses[f.Sel].(*types.Func); ok && fn.Pkg() != nil && fn.Pkg().Path() == "sync" {
+							add(fb.renderLoose(f.X), "waker-bare")
+						}
+					}
+				}
+			}
+		case *ast.GoStmt:
+			if fl, ok := unparen(x.Call.Fun).(*ast.FuncLit); ok {
+				// only goroutines that wait for a cancellation: <-X.Done()
+				waitsDone := false
+				ast.Inspect(fl.Body, func(m ast.Node) bool {
+					if u, ok := m.(*ast.UnaryExpr); ok && u.Op == token.ARROW {
+						if c, ok := unparen(u.X).(*ast.CallExpr); ok {
+							if s, ok := unparen(c.Fun).(*ast.SelectorExpr); ok && s.Sel.Name == "Done" {
+								waitsDone = true
+							}
+						}
+					}
+					return true
+				})
+				if waitsDone {
+					for c, ev := range classify(fl.Body) {
+						add(c, ev)
+					}
+				}
+			}
+		}
+		return true
+	})
 }
 
 func (fb *fnBuilder) mayReturn(c *ast.CallExpr) bool {
